@@ -258,6 +258,33 @@ def run(chk):
                     chk.ok('C03-mentions', v, sample='mentions/%s inspects %s' % (v, ', '.join(sorted(bound & used))))
                 else:
                     chk.bad('C03-mentions', 'Predicate::mentions', 'ignored:%s' % v, 'the arm of mentions for Predicate::%s binds nothing it uses' % v, PRED, arm['l'])
+    # ---- a refinable base type is compared as a whole
+    chk.rule('C03-base', 'in compare.rs, a RefinementType obtained with into_refinement() and bound to a local (Nat -> {I: Int | I >= 0}, Bool -> {I: Int | 0 <= I <= 1}) is used with its '
+                         'predicate: the local is passed on whole, or its `.pred` is read — reading only `.t` forgets the constraint of the base type (`{I: Nat | I <= 10}` accepted -1)')
+    CMP = 'crates/erg_compiler/context/compare.rs'
+    nref = 0
+    for f_ in fx.fns(CMP):
+        for n in T.walk(f_['body']):
+            if n.get('k') == 'Let' and n.get('init') is not None and n['pat'].get('k') == 'Bind':
+                init = T.peel(n['init'])
+                if init.get('k') == 'MCall' and init['n'] == 'into_refinement':
+                    nm = n['pat']['n']
+                    nid = n['pat'].get('id')
+                    uses = [x for x in T.walk(f_['body']) if x.get('k') == 'Local' and x.get('id') == nid]
+                    field_reads = {}
+                    whole = 0
+                    for fld in T.walk(f_['body']):
+                        if fld.get('k') == 'Field' and T.peel(fld['x']).get('k') == 'Local' and T.peel(fld['x']).get('id') == nid:
+                            field_reads[fld['n']] = field_reads.get(fld['n'], 0) + 1
+                    whole = len(uses) - sum(field_reads.values())
+                    nref += 1
+                    where = T.norm(f_['path'])
+                    if 'pred' in field_reads or whole > 0:
+                        chk.ok('C03-base', (where, nm, n['l']), sample='%s: `%s` = ..into_refinement(): %s' % (where, nm, 'passed on whole' if whole > 0 else 'its .pred is read'))
+                    else:
+                        chk.bad('C03-base', where, 'pred-unused:%s' % nm, '%s binds `%s = ..into_refinement()` and reads only %s: the predicate that makes the base type a refinement '
+                                '(I >= 0 for Nat) takes no part in the comparison' % (where, nm, ', '.join('.' + k for k in sorted(field_reads)) or 'nothing'), CMP, n['l'])
+    chk.floor('into_refinement() locals in compare.rs', nref, 2)
     from sa.props.c32 import combinator_rule
     combinator_rule(chk, fx, rid='C03-comb')      # a refinement written `P and Q` must keep both conjuncts: the subtype test is only as sound as the predicate it is given
     return ('Row-by-row soundness of the comparison-atom arms of Context::is_super_pred_of under the three-orderings model (bodies recognised from typed HIR; the truth table of '
